@@ -17,6 +17,7 @@ func init() {
 			"(R2) every publisher passes exactly one *membership.Model on the one topic constant and every subscriber is a func(*membership.Model) on the same constant (reflection contract of EventBus); " +
 			"(R3) numbering formulas: Couchbase membership = (index of self + 1, len(instances)) of one slice, panic when self is absent; leader = (1, len(followers)+1), follower at index i of the join-ordered list = (i+2, same total) addressed by the name at index i; static / stateful-set = config values / ordinal+1; " +
 			"(R4) both sort comparators order by join time ascending (exhaustive); (R5) the Couchbase membership records the view it acted on only after the change decision in its rebalance step, and a CAS conflict restarts the whole monitor round. " +
+			"(R7) leader-assigned variant: registration replaces a follower's entry unconditionally, the heart-beat removes exactly the followers whose ping failed, and a ping/rebalance/register call fails exactly when all of its attempts failed (Retry evaluated exhaustively). " +
 			"NOT decided: agreement between independently running members, CAS retry convergence, bounded admission/removal, distinctness under concurrent joins (distributed, timed behaviour).",
 		Assumptions: []string{"EventBus calls subscribers with the published arguments via reflection", "members observe the same index document"},
 		Rules: []RuleDef{
@@ -25,6 +26,7 @@ func init() {
 			{ID: "C10.R3", Text: "numbering formulas of the four mechanisms (self index+1 / len; leader 1, follower i+2 of the join-ordered list, total len+1; config / ordinal+1)", Run: c10r3},
 			{ID: "C10.R4", Text: "join order: both sort comparators return less ⇔ joinTime(i) < joinTime(j)", Run: c10r4},
 			{ID: "C10.R6", Text: "together with the partition rule: a member takes exactly chunk MemberNumber-1 of TotalMembers chunks (same rule as C09.R2)", Run: c09r2},
+			{ID: "C10.R7", Text: "leader-assigned variant, admission and removal: a registration replaces the follower's entry unconditionally (the table is mutated only by Store(name, service) in Add and Delete in Remove); the heart-beat removes exactly the followers whose Ping returned an error; the rpc calls return the retry helper's result, and Retry reports nil ⇔ some attempt succeeded (exhaustive for ≤ 4 attempts)", Run: c10r7},
 			{ID: "C10.R5", Text: "Couchbase membership: lastActiveInstances is written only in the numbering step after the publish decision; on CAS mismatch the round is restarted (monitor re-entered), nothing is rewritten", Run: c10r5},
 		},
 	})
@@ -613,4 +615,167 @@ func cellFieldVal(c *cell, field string) AV {
 		}
 	}
 	return nil
+}
+
+// c10r7: admission and removal in the leader-assigned variant rest on three small mechanisms, each of which looks
+// harmless alone: the follower table keeps the latest registration, a failed ping removes the follower, and the rpc
+// retry helper reports a failure as a failure.
+func c10r7(c *Ctx, id string) {
+	w := c.W
+	add := w.Method("servicediscovery", "serviceDiscovery", "Add")
+	rem := w.Method("servicediscovery", "serviceDiscovery", "Remove")
+	hb := w.Method("servicediscovery", "serviceDiscovery", "StartHeartbeat")
+	svcField := w.Field("servicediscovery", "serviceDiscovery", "services")
+	c.need(add != nil && rem != nil && hb != nil && svcField != nil, id, "serviceDiscovery.Add / Remove / StartHeartbeat / services")
+	c.see(add)
+	c.see(rem)
+	// who mutates the follower table, and how
+	var bad []string
+	nStore, nDelete := 0, 0
+	for _, fn := range w.ModFuncs {
+		allInstrs(fn, func(in ssa.Instruction) {
+			cc := callOf(in)
+			if cc == nil {
+				return
+			}
+			m, recv := csmapMethod(cc)
+			if m == "" || recv == nil || !strings.HasSuffix(w.Origin(recv), "."+svcField.Name()) || loadedField(unwrap(recv)) != svcField {
+				return
+			}
+			switch m {
+			case "Store":
+				nStore++
+				k, v := w.Origin(cc.Args[1]), w.Origin(cc.Args[2])
+				p := ""
+				if len(add.Params) > 1 {
+					p = "param(" + add.Params[1].Name() + ")"
+				}
+				if rootFn(fn) != add || fn != add || k != p+".Name" || v != p || len(guardsOf(in.Block())) != 0 {
+					bad = append(bad, fmt.Sprintf("Store(%s, %s) in %s under %d conditions @%s", k, v, fname(fn), len(guardsOf(in.Block())), w.pos(in.Pos())))
+				}
+			case "Delete":
+				nDelete++
+				if rootFn(fn) != rem {
+					bad = append(bad, "Delete in "+fname(fn)+" @"+w.pos(in.Pos()))
+				}
+			case "Load", "Range", "Count":
+			default:
+				bad = append(bad, m+" in "+fname(fn)+" @"+w.pos(in.Pos()))
+			}
+		})
+	}
+	c.Check(len(bad) == 0 && nStore == 1 && nDelete >= 1, id, "follower-table", add.Pos(), "the follower table is mutated only by an unconditional Store(service.Name, service) in Add and by Delete in Remove",
+		fmt.Sprintf("a registration does not simply replace the follower's entry, or the table has another writer (%d Store, %d Delete): %s — a follower that restarts under its old name is not admitted", nStore, nDelete, strings.Join(bad, "; ")))
+	// heart-beat: removed ⇔ ping failed
+	nPing := 0
+	for _, f := range withAnon(hb) {
+		c.see(f)
+		allInstrs(f, func(in ssa.Instruction) {
+			call, ok := in.(*ssa.Call)
+			if !ok || !call.Common().IsInvoke() || call.Common().Method.Name() != "Ping" {
+				return
+			}
+			if !strings.HasPrefix(w.Origin(call.Common().Value), "param(") {
+				return // the leader's own ping
+			}
+			nPing++
+			// every append of the ranged name in this closure is guarded by err != nil of this ping, and one exists
+			nApp, okApp := 0, true
+			allInstrs(f, func(x ssa.Instruction) {
+				cc := callOf(x)
+				if cc == nil {
+					return
+				}
+				if b, isB := cc.Value.(*ssa.Builtin); !isB || b.Name() != "append" {
+					return
+				}
+				nApp++
+				if !errGuard(x.Block(), false, func(v ssa.Value) bool { return v == ssa.Value(call) }) || len(guardsOf(x.Block())) != 1 {
+					okApp = false
+				}
+			})
+			c.Check(nApp == 1 && okApp, id, "remove-on-failed-ping@"+fname(f), call.Pos(), "a follower is queued for removal ⇔ its Ping returned an error", fmt.Sprintf("the removal list is not filled exactly under err≠nil of the follower's ping (%d appends, guarded only by the ping error: %v)", nApp, okApp))
+		})
+	}
+	// every queued name is removed
+	nRem := 0
+	for _, f := range withAnon(hb) {
+		for _, ci := range callsIn(f, rem) {
+			nRem++
+			_ = ci
+		}
+	}
+	c.Check(nPing == 1 && nRem == 1, id, "heartbeat-removal", hb.Pos(), "the heart-beat pings every follower and removes the queued ones", fmt.Sprintf("%d follower pings, %d Remove calls in the heart-beat loop", nPing, nRem))
+	// the rpc calls return Retry's result
+	retry := w.Func("helpers", "Retry")
+	c.need(retry != nil, id, "helpers.Retry")
+	for _, name := range []string{"Ping", "Register", "Rebalance"} {
+		m := w.Method("servicediscovery", "client", name)
+		if m == nil {
+			c.Undecided(id, "rpc-result:"+name, 0, "servicediscovery.client.%s not found", name)
+			continue
+		}
+		c.see(m)
+		ok := false
+		allInstrs(m, func(in ssa.Instruction) {
+			if r, isR := in.(*ssa.Return); isR && len(r.Results) == 1 {
+				if call, isC := unwrap(r.Results[0]).(*ssa.Call); isC && call.Common().StaticCallee() == retry {
+					ok = true
+				} else {
+					ok = false
+				}
+			}
+		})
+		c.Check(ok, id, "rpc-result:"+name, m.Pos(), "returns the retry helper's result", "client."+name+" does not return the retry helper's result as it is")
+	}
+	// Retry itself
+	calls := map[*State]int{}
+	fp, ap := retry.Params[0].Name(), retry.Params[1].Name()
+	h := &Harness{Fn: retry, Choices: map[string]int{"attempts": 5, "fails": 6}, Quiet: append([]string{"time.Sleep"}, quietLog...), MaxSteps: 4000,
+		Args: map[string]func(st *State) AV{ap: func(st *State) AV { return avInt{conc: int64(st.C("attempts"))} }},
+		Oracle: func(st *State, name string, args []AV, res *types.Tuple) ([]AV, bool) {
+			if name == fp {
+				calls[st]++
+				if calls[st] <= st.C("fails") {
+					return []AV{avIface{sym: fmt.Sprintf("err%d", calls[st])}}, true
+				}
+				return []AV{avIface{isNil: true}}, true
+			}
+			return nil, false
+		}}
+	c.oae(id, "retry-outcome", retry.Pos(), h, func(st *State, out *Outcome) string {
+		a, k := st.C("attempts"), st.C("fails")
+		n := len(out.Effects(fp))
+		if out.Panicked {
+			return "panics"
+		}
+		want := k + 1
+		if a < want {
+			want = a
+		}
+		if n != want {
+			return fmt.Sprintf("%d attempts made, expected %d", n, want)
+		}
+		if len(out.Ret) != 1 {
+			return "no result"
+		}
+		r, isI := out.Ret[0].(avIface)
+		if !isI {
+			return "result is not an error value: " + avString(out.Ret[0])
+		}
+		switch {
+		case k < a || a == 0:
+			if !r.isNil {
+				return "an attempt succeeded (or none was asked for) but an error is reported: " + avString(r)
+			}
+		default:
+			if r.isNil {
+				return "every attempt failed but nil is reported: a dead follower looks alive"
+			}
+			if r.sym != fmt.Sprintf("err%d", a) {
+				return "reports " + avString(r) + ", expected the last attempt's error"
+			}
+		}
+		return ""
+	}, "attempts = min(n, first success); nil ⇔ an attempt succeeded; otherwise the last attempt's error (n = 0..4, 0..5 leading failures)")
 }
